@@ -21,8 +21,26 @@ def _alarm(signum, frame):
     raise _Timeout()
 
 
-def record_call(ptn, nu, nv, edge_seq, budget_s=5):
-    """Run minimum_vertex_cover on BipartiteGraph(nu, nv, edge_seq) and record the trace."""
+def staircase_graph(p, swap=False):
+    """p disjoint paths a_0 - b_0 = a_1 - b_1 = ... = a_d - b_d (d = 1..p) numbered and ordered such that the greedy first phase
+    takes the '=' edges: Hopcroft-Karp needs p + 1 phases (shortest augmenting paths of lengths 1, 3, ..., 2p + 1)"""
+    edges, offset = [], 0
+    for d in range(1, p + 1):
+        a = lambda i, o=offset, d=d: o + (i - 1 if i >= 1 else d)
+        b = lambda i, o=offset: o + i
+        for i in range(1, d + 1):
+            edges.append((a(i), b(i - 1)))
+            edges.append((a(i), b(i)))
+        edges.append((a(0), b(0)))
+        offset += d + 1
+    if swap:
+        edges = [(v, u) for u, v in edges]
+    return offset, offset, edges
+
+
+def record_call(ptn, nu, nv, edge_seq, budget_s=5, reuse=0):
+    """Run minimum_vertex_cover on BipartiteGraph(nu, nv, edge_seq) and record the trace.  reuse > 0: before that, one
+    HopcroftKarp object on the same graph is invoked reuse + 1 times (a history on the solver object)."""
     bg = ptn.bipartite_graph
     edges = sorted(set((int(u), int(v)) for u, v in edge_seq))
     tr = [dict(ev='graph', nu=nu, nv=nv, edges=[list(e) for e in edges])]
@@ -64,6 +82,8 @@ def record_call(ptn, nu, nv, edge_seq, budget_s=5):
 
     def mk_call(orig):
         def call(self):
+            if any(r['ev'] == 'matching' for r in tr):
+                tr.append(dict(ev='again'))
             m = orig(self)
             tr.append(dict(ev='matching', pairs=[[int(a), int(b)] for a, b in m]))
             return m
@@ -76,6 +96,10 @@ def record_call(ptn, nu, nv, edge_seq, budget_s=5):
                           (bg.HopcroftKarp, '_HopcroftKarp__add_augmenting_path', mk_aug),
                           (bg.HopcroftKarp, '__call__', mk_call)):
             g = bg.BipartiteGraph(nu, nv, list(edge_seq))
+            if reuse:
+                hk = bg.HopcroftKarp(g)
+                for _ in range(reuse + 1):
+                    hk()
             uc, vc = bg.minimum_vertex_cover(g)
         tr.append(dict(ev='cover', uc=[int(x) for x in uc], vc=[int(x) for x in vc]))
     except _Timeout:
@@ -175,10 +199,20 @@ def run(ctx):
             rng.shuffle(es)
             cases.append((nu, nv, es))
 
+        # staircases: as many Hopcroft-Karp phases as the graph allows (p + 1 phases on p(p+3)/2 vertices per side)
+        for p_ in range(1, ctx.pick(8, 10)):
+            for swap in (False, True):
+                cases.append(staircase_graph(p_, swap))
+        # histories on the solver object: the same HopcroftKarp instance is invoked several times
+        for k_, (nu, nv, es) in enumerate(list(cases)):
+            if k_ % ctx.pick(9, 7) == 3 and len(es) >= 1 and nu * nv <= 400:
+                cases.append((nu, nv, es, 1 + k_ % 2))
+
     traces = []
     missing_hooks = set()
-    for nu, nv, es in cases:
-        tr = record_call(ptn, nu, nv, es)
+    for case in cases:
+        nu, nv, es = case[:3]
+        tr = record_call(ptn, nu, nv, es, reuse=(case[3] if len(case) > 3 else 0))
         traces.append(tr)
         ctx.count([nu, nv, es], nontrivial=len(es) > 0)
     for tr in traces[5:400:80]:
@@ -188,9 +222,9 @@ def run(ctx):
     ctx.log(f'recorded {len(traces)} calls ({n_hook} with bfs/aug hook events)')
 
     bad = validate_chunks(ctx, 'TraceBipartite', 'tb', traces, chunk=ctx.pick(4000, 6000),
-                          invariants=['TraceMatchingValid'])
+                          invariants=['TraceMatchingValid'], relax=lambda tr: [r for r in tr if r.get('ev') not in ('bfs', 'aug')])
     for idx, why in sorted(bad.items())[:50]:
-        nu, nv, es = cases[idx]
+        nu, nv, es = cases[idx][:3]
         key = f'bipartite:{why[0][2] if why and len(why[0]) > 2 else "rejected"}'
         ctx.violation(key, f'minimum_vertex_cover(BipartiteGraph({nu}, {nv}, {es[:40]}...)) rejected by '
-                           f'TraceBipartite: {why}', dict(case=[nu, nv, [list(e) for e in es]], trace=traces[idx]))
+                           f'TraceBipartite: {why}', dict(case=[nu, nv, [list(e) for e in es]] + list(cases[idx][3:]), trace=traces[idx]))
